@@ -17,10 +17,10 @@ pub struct Plan {
     pub faults: Vec<(u64, Payload)>, // (fault point index, payload kind)
     pub seed: u64,
 }
-pub const OP_NAMES: [&str; 30] = [
+pub const OP_NAMES: [&str; 32] = [
     "new_conn", "drop_conn", "add", "echo_string", "echo_vec", "sum_ref", "len_ref", "count_str", "sum_slice", "try_div", "bump", "many",
     "call_fn", "call_fnmut", "take_boxed_fn", "call_stored", "drop_stored", "take_leaf", "ping_leaves", "drop_leaves", "make_leaf", "use_leaf",
-    "drop_leaf", "make_fn", "use_fn", "drop_fn", "spawn", "poll", "fire", "cancel",
+    "drop_leaf", "make_fn", "use_fn", "drop_fn", "spawn", "poll", "fire", "cancel", "join", "concat",
 ];
 pub fn op_code(name: &str) -> i64 {
     OP_NAMES.iter().position(|n| *n == name).map(|x| x as i64).unwrap_or(2)
@@ -228,7 +228,7 @@ pub fn run_world(plan: &Plan, kind: WorldKind) -> RunLog {
                     }
                     _ => "noop".into(),
                 },
-                "add" | "echo_string" | "echo_vec" | "sum_ref" | "len_ref" | "count_str" | "sum_slice" | "try_div" | "many" | "call_stored" | "ping_leaves" => {
+                "add" | "join" | "concat" | "echo_string" | "echo_vec" | "sum_ref" | "len_ref" | "count_str" | "sum_slice" | "try_div" | "many" | "call_stored" | "ping_leaves" => {
                     let Some(i) = pick(&conns, a) else { return "noop".into() };
                     let svc: &dyn Svc = &**conns[i].as_ref().unwrap();
                     match name {
@@ -237,6 +237,17 @@ pub fn run_world(plan: &Plan, kind: WorldKind) -> RunLog {
                             let s = gen_string(c, (b.unsigned_abs() % 1100) as usize);
                             let r = svc.echo_string(s.clone());
                             format!("ok {} same={}", digest(r.as_bytes()), r == s)
+                        }
+                        "join" => {
+                            let s = gen_string(c, (b.unsigned_abs() % 200) as usize);
+                            let (r, t) = svc.join(s.clone(), c as u32);
+                            format!("ok {} same={} tag={}", digest(r.as_bytes()), r == s, t)
+                        }
+                        "concat" => {
+                            let s1 = gen_string(c, (b.unsigned_abs() % 200) as usize);
+                            let s2 = gen_string(c + 1, (c.unsigned_abs() % 90) as usize);
+                            let r = svc.concat(s1, s2);
+                            format!("ok {}", digest(r.as_bytes()))
                         }
                         "echo_vec" => {
                             let v = gen_bytes(c, (b.unsigned_abs() % 1100) as usize);
@@ -628,7 +639,7 @@ pub fn gen_plan(seed: u64) -> Plan {
     let fam_conn = rng.chance(1, 2);
     let mut pool: Vec<&str> = vec!["add"];
     if fam_data {
-        pool.extend(["echo_string", "echo_string", "echo_vec", "sum_ref", "len_ref", "count_str", "sum_slice", "try_div", "bump", "many"]);
+        pool.extend(["echo_string", "echo_string", "join", "join", "concat", "concat", "echo_vec", "sum_ref", "len_ref", "count_str", "sum_slice", "try_div", "bump", "many"]);
     }
     if fam_cb {
         pool.extend(["call_fn", "call_fn", "call_fnmut"]);
@@ -642,13 +653,13 @@ pub fn gen_plan(seed: u64) -> Plan {
     if fam_conn {
         pool.extend(["new_conn", "drop_conn"]);
     }
-    let sizes: [i64; 14] = [0, 1, 40, 47, 48, 52, 55, 56, 57, 60, 63, 64, 65, 200];
+    let sizes: [i64; 18] = [0, 1, 36, 40, 43, 44, 45, 47, 48, 51, 52, 53, 56, 60, 63, 64, 65, 200];
     let mut ops = Vec::new();
     for _ in 0..n_ops {
         let name = *rng.pick(&pool);
         let a = rng.below(6) as i64;
         let b = match name {
-            "echo_string" | "echo_vec" | "count_str" | "len_ref" => {
+            "echo_string" | "echo_vec" | "count_str" | "len_ref" | "join" | "concat" => {
                 if rng.chance(2, 3) {
                     *rng.pick(&sizes)
                 } else {
